@@ -86,11 +86,11 @@ MakeBaseR(Z, T, cs) ==
         ELSE UniqueR(CivDiff(cs, LocalCiv(WZero, Z.types[Z.dflt].off))))
      ELSE MkSkipped(T[1], cs))
   ELSE IF k = n THEN
-    (IF CivLess(T[n].pcs, cs) THEN
+    (IF CivLess(T[SameOff(T, n)].pcs, cs) THEN
        (IF CivLess(LocalCiv(TMax, T[n].T.off), cs) THEN UniqueR(TMax) ELSE UniqueR(T[n].at \oplus CivDiff(cs, T[n].cs)))
-     ELSE MkRepeated(T[n], cs))
+     ELSE MkRepeated(T[SameOff(T, n)], cs))
   ELSE IF CivLess(T[k + 1].pcs, cs) THEN MkSkipped(T[k + 1], cs)
-  ELSE IF CivLeq(cs, T[k].pcs) THEN MkRepeated(T[k], cs)
+  ELSE IF CivLeq(cs, T[SameOff(T, k)].pcs) THEN MkRepeated(T[SameOff(T, k)], cs)
   ELSE UniqueR(T[k].at \oplus CivDiff(cs, T[k].cs))
 \* MakeTime with the year shift and TimeLocal's saturating compensation.  As repaired (ee7d828) the cycles are
 \* added in steps of at most MaxStep = floor(TMax / K400) cycles, each representable, saturating at TMax only
